@@ -77,6 +77,7 @@ structure Rec where
   active : List Nat
   trajNum : Nat
   locked : List Job
+  steps : Nat := 0            -- simulation.steps (the restart file repeats the settings)
 deriving DecidableEq, Repr
 
 inductive RFile
@@ -167,15 +168,17 @@ def crashAt (es : List Effect) (d : Disk) (k : Nat) (half : Bool) : Disk :=
 /-! ## one step of the main process -/
 
 inductive Variant
-  | asIs         -- write_toml: open("./restart.toml","wb") truncates in place
-  | repaired     -- write to ./restart.toml.tmp, then os.replace
+  | asIs         -- historical write_toml (before ba0d066): open("./restart.toml","wb") truncates in place
+  | repaired     -- the code now: write ./restart.toml.tmp, then os.replace
 deriving DecidableEq, Repr
 
 structure Cfg where
   n : Nat                 -- REPEX_state.n  (= number of interfaces + 1)
   deleteOld : Bool        -- output.delete_old
   deleteAll : Bool        -- output.delete_old_all
-  variant : Variant
+  variant : Variant := .repaired
+  /-- setup_config calls clean_data_file on a restart (the code since 05f8082); false = historical -/
+  cleanOnRestart : Bool := true
 deriving Repr
 
 /-- a stored path: number, content id of its txt files, its trajectory files (name, content id) -/
@@ -199,6 +202,7 @@ structure Mem where
   trajNum : Nat
   olds : List Old               -- pn_olds, oldest first (dict insertion order)
   locked : List Job
+  steps : Nat := 0              -- simulation.steps
 deriving Repr
 
 /-- one accepted ensemble of the job: the path it replaces and the new path's content -/
@@ -241,13 +245,30 @@ def outputPath (p : PathInfo) (d : Disk) : List Effect :=
 
 def txtKeys (pn : Nat) : List Key := [.order pn, .traj pn, .energy pn]
 
-/-- deleting one queued path: its trajectory files, and with delete_old_all the txt files that
-    are files and the two directories -/
+def dedup : List Nat → List Nat
+  | [] => []
+  | x :: t => if x ∈ t then dedup t else x :: dedup t
+
+/-- `os.listdir(load/pn/accepted)`: the names of the entries that exist -/
+def tfileNames (f : Files) (pn : Nat) : List Nat :=
+  (dedup (f.filterMap (fun e => match e.1 with
+      | .tfile p n => if p = pn then some n else none
+      | _ => none))).filter (fun n => f.get (.tfile pn n) != .absent)
+
+/-- delete_old_all, up to (not including) the two rmdir: the txt files that are files, then every
+    entry still listed in `accepted/` (files left behind by a store that was interrupted and
+    redone after a restart — since e7b75fb) -/
+def delAllRemoves (o : Old) (d : Disk) : List Effect :=
+  let e2 := ((txtKeys o.pn).filter (fun k => (d.files.get k).isFile)).map Effect.remove
+  e2 ++ (tfileNames (run e2 d).files o.pn).map (fun n => Effect.remove (.tfile o.pn n))
+
+/-- deleting one queued path: its trajectory files, and with delete_old_all the txt files, the
+    leftovers and the two directories -/
 def delEffs (cfg : Cfg) (o : Old) (d : Disk) : List Effect :=
-  o.names.map (fun n => Effect.remove (.tfile o.pn n)) ++
+  let e1 := o.names.map (fun n => Effect.remove (.tfile o.pn n))
+  e1 ++
   (if cfg.deleteAll then
-     ((txtKeys o.pn).filter (fun k => (d.files.get k).isFile)).map Effect.remove
-       ++ [.rmdir (.acc o.pn), .rmdir (.pdir o.pn)]
+     delAllRemoves o (run e1 d) ++ [.rmdir (.acc o.pn), .rmdir (.pdir o.pn)]
    else [])
 
 /-- the delete_old block of treat_output for the replaced path `old`; returns effects and new queue -/
@@ -297,7 +318,8 @@ def newRec (m : Mem) (c : Choice) : Rec :=
     restartedFrom := m.restartedFrom
     active := c.newLive.map (·.pn)
     trajNum := m.trajNum + c.accs.length
-    locked := c.locked' }
+    locked := c.locked'
+    steps := m.steps }
 
 /-- all file-system effects of one step, in the code's order -/
 def stepEffs (cfg : Cfg) (m : Mem) (c : Choice) (d : Disk) : List Effect :=
@@ -309,7 +331,8 @@ def stepMem (cfg : Cfg) (m : Mem) (c : Choice) (d : Disk) : Mem :=
     live := c.newLive
     trajNum := m.trajNum + c.accs.length
     olds := accOlds cfg c.accs m.trajNum m.olds d
-    locked := c.locked' }
+    locked := c.locked'
+    steps := m.steps }
 
 /-- crash in the middle of the step -/
 def crashStep (cfg : Cfg) (m : Mem) (c : Choice) (d : Disk) (k : Nat) (half : Bool) : Disk :=
@@ -363,7 +386,7 @@ def restartOutcome (M : Manifest) (e : Entry) (d : Disk) : Outcome :=
     | .empty => .raises                            -- {} → KeyError('simulation')
     | .part => .raises                          -- TOMLDecodeError
     | .complete r =>
-      if r.restartedFrom = some r.cstep then .refuses
+      if r.restartedFrom = some r.cstep ∧ r.steps ≤ r.cstep then .refuses   -- finished run (62f494c)
       else if r.active.any (fun a => !(d.files.get (.traj a)).isFile) then .refuses
       else if r.active.all (fun a => (loadPath M d.files a).isSome) then .starts r
       else .raises
@@ -380,7 +403,17 @@ def restore (M : Manifest) (r : Rec) (f : Files) : Mem :=
     live := r.active.filterMap (loadPath M f)
     trajNum := r.trajNum
     olds := []
-    locked := [] }
+    locked := []
+    steps := r.steps }
+
+/-- `clean_data_file` (setup.py, since 05f8082): on a restart the rows whose path number is still
+    listed in `current.active` and a torn last line are dropped (temp file + os.replace: atomic) -/
+def cleanData (df : DataFile) (active : List Nat) : DataFile :=
+  { rows := df.rows.filter (fun p => !active.contains p), garbled := df.garbled, torn := false }
+
+/-- the disk after the restart's `setup_config` -/
+def restoreDisk (cfg : Cfg) (r : Rec) (d : Disk) : Disk :=
+  if cfg.cleanOnRestart then { d with data := cleanData d.data r.active } else d
 
 /-- the jobs `pick_lock` issues first after a restart: exactly `locked0`, in order -/
 def reissued (r : Rec) (workers : Nat) : List Job := r.locked.take workers
